@@ -496,6 +496,23 @@ pub fn check_state<KK: KeyKind>(
         ctx.count("panics");
         ctx.violate("C03", "panic", &format!("{acc}/{}", panic_sig(&msg)), || format!("{acc} panicked on a record handed out with Ok ({site}): {msg}"), replay);
     }
+    // ---- Encodable::length() and the list framing alloy-rlp derives from it
+    match guard(|| {
+        use alloy_rlp::Encodable;
+        (e.length(), alloy_rlp::encode(vec![e.clone(), e.clone()]))
+    }) {
+        Ok((len, listed)) => {
+            if len != o.enc.len() {
+                ctx.violate("C09", "length()-differs-from-encoding", site, || format!("length() {len}, encoding {}", o.enc.len()), replay);
+            }
+            let want = rlp::enc_list_payload(&[o.enc.clone(), o.enc.clone()].concat());
+            if listed != want {
+                ctx.violate("C13", "list-encoding-of-records-malformed", site, || format!("encode(vec![r, r]) = {}", hex(&listed[..listed.len().min(12)])), replay);
+                ctx.violate("C04", "list-encoding-of-records-malformed", site, || "encode(vec![r, r]) is not the list of the two encodings".into(), replay);
+            }
+        }
+        Err(p) => ctx.violate("C03", "panic", &format!("length/{}", panic_sig(&p)), || p.clone(), replay),
+    }
     // ---- C04 / C05: round trips
     let d = decode_as::<KK::K>(&o.enc);
     ctx.count("c04.roundtrips");
@@ -542,6 +559,9 @@ pub fn check_state<KK: KeyKind>(
                 ctx.violate("C12", "json-form-not-canonical", site, || format!("json {js}"), replay);
             }
             cmp(ctx, "json", &json_as::<KK::K>(&js));
+            for (form, d) in crate::dec::json_variants_as::<KK::K>(&js) {
+                cmp(ctx, form, &d);
+            }
         }
         Ok(Err(err)) => {
             ctx.violate("C04", "own-output-rejected", &format!("json-serialise/{site}"), || format!("to_string failed: {err}"), replay);
@@ -815,6 +835,10 @@ fn run_history_inner<KK: KeyKind>(ctx: &mut Ctx, h: &History, opts: &RunOpts) ->
                     ctx.violate("C06", "record-changed-by-failed-update", &format!("{opn}/{}/{what}", if causes.is_empty() { kind } else { &causes }), || {
                         format!("{ktn}: step {i} {opn} returned Err({kind}) but {what} changed (seq {}→{}, verify {})", pre.seq, post.seq, post.verify)
                     }, &replay);
+                }
+                // ---- C07: only successful updates move the sequence number
+                if post.seq != pre.seq {
+                    ctx.violate("C07", "seq-changed-by-failed-update", &site, || format!("{ktn}: {opn} returned Err({kind}) and seq went {} → {}", pre.seq, post.seq), &replay);
                 }
                 // ---- C08 error kinds
                 let admissible: Vec<&str> = pred.must.iter().chain(pred.may.iter()).flat_map(|c| c.kinds().iter().copied()).collect();
